@@ -1893,10 +1893,40 @@ def prepare_one(ck, fn):
     stable = fn.targs[0] == "true"
     seqs_b, seqs_e, minseq = fn.params[0]["did"], fn.params[1]["did"], fn.params[3]["did"]
     top = kids(fn.body)
+
+    def plain_store(s_, to):
+        """the right side of the statement `to = x` (a plain assignment to the variable to), else None"""
+        b_ = match.binop(match.strip_conv(s_), ("=",)) if s_ is not None and s_["k"] in ("BinaryOperator", "ExprWithCleanups", "ParenExpr") else None
+        return b_[2] if b_ and ref_of(b_[1]) == to else None
+
+    def assigns(s_, to):
+        return any(match.binop(z, ("=",)) and ref_of(match.binop(z, ("=",))[1]) == to for z in walk(s_) if z["k"] == "BinaryOperator")
+    # the running arg-min may be kept in an integer local that is stored into min_sequence by a statement of the function
+    # body behind the scan (`min_sequence = min_index;`): then that local is what takes every value 0..K-1 behind the
+    # scan, and the store is evaluated like every other statement
+    carriers = set()
+    for s_ in top:
+        r_ = ref_of(match.strip_conv(plain_store(s_, minseq))) if plain_store(s_, minseq) is not None else None
+        v_ = local_decl(fn, r_) if r_ is not None else None
+        if v_ is not None and (v_.get("ty") or "").replace("unsigned", "").strip() in ("int", "long", "short", "size_t", "std::size_t", "long long"):
+            carriers.add(r_)
     scan = [i for i, s_ in enumerate(top) if s_ is not None and s_["k"] in ("ForStmt", "WhileStmt") and
-            any(match.binop(z, ("=",)) and ref_of(match.binop(z, ("=",))[1]) == minseq for z in walk(s_) if z["k"] == "BinaryOperator")]
+            (assigns(s_, minseq) or any(assigns(s_, c_) for c_ in carriers))]
     ck.require(len(scan) == 1, "%s: minimum scan not found" % fn.loc)
     frag = top[scan[0] + 1:]
+    # a carrier counts only if the scan loop writes it, it is declared before the scan and the first statement behind the
+    # scan that touches min_sequence is that store; every other form is left to the evaluation (which cannot decide a
+    # bound that depends on a value it does not know)
+    carrier = None
+    for s_ in frag:
+        x_ = plain_store(s_, minseq)
+        if x_ is not None:
+            r_ = ref_of(match.strip_conv(x_))
+            if r_ in carriers and assigns(top[scan[0]], r_) and not any(z.get("did") == r_ for f_ in frag for z in walk(f_) if z["k"] == "VarDecl"):
+                carrier = r_
+            break
+        if any(ref_of(z) == minseq for z in walk(s_)):
+            break
     K = 4
     bad = None
     sig = "stable" if stable else "unstable"
@@ -1939,7 +1969,8 @@ def prepare_one(ck, fn):
                 used.append((b[1], a[1]))
                 return None
             return NotImplemented
-        sk = skel_with_arrays()(fn, {minseq: m, seqs_b: 0, seqs_e: K}, None, event)
+        # with a carrier min_sequence itself holds nothing known until the store is evaluated
+        sk = skel_with_arrays()(fn, {minseq: m, seqs_b: 0, seqs_e: K} if carrier is None else {carrier: m, seqs_b: 0, seqs_e: K}, None, event)
         sk.alg = alg
         # calls evaluated without their body (closures that capture by value, functions outside this file) and objects
         # of project types may compute a split point in a way the evaluation does not follow
@@ -1951,6 +1982,8 @@ def prepare_one(ck, fn):
             sk.run(frag)
         except skel.Return:
             pass
+        if carrier is not None and sk.env.get(minseq) != m:
+            raise Undecidable("%s: value of min_sequence behind the minimum scan not understood" % fn.loc)
         got = {}
         for n_, q in used:
             name, idx, node = calls[n_]
